@@ -4,7 +4,11 @@ import ZV.Model.C11
   `x509/verify.go: FilterByDate`, `Certificate.TimeInValidityPeriod`,
   `mozilla.OneCRL.Check` and `google.CRLSet.Check`, on top of the walk of `ZV.Model.C11`.
 
-  * times are whole seconds (`Int`); `time.Before/After` are strict comparisons;
+  * a `time.Time` is (seconds relative to the harness epoch, nanoseconds in the second); certificate
+    times are whole seconds (`Cert.notBefore/notAfter : Int`, X.509 has no finer resolution);
+    `Before/After` compare seconds, then nanoseconds (wall clock; no monotonic reading is involved
+    because certificate times never carry one);
+  * `opts.clean()`: a zero `VerifyTime` is replaced by the clock reading `opts.clock` (an input);
   * `c.VerifyHostname(name)` is abstracted to `nameMatches` on a small name language
     (hostname matching itself is property C09): a certificate has at most one SAN dNSName
     (`dns > 0`: the host `h<dns>.test`; `dns < 0`: the wildcard `*.d<-dns>.test`) or none
@@ -12,12 +16,40 @@ import ZV.Model.C11
   * OneCRL: `IssuerLists[cert.Issuer.String()]` is keyed by the issuer name id, `Blocked`
     entries are (subject name, SHA-256 of SPKI) = (name id, key id);
     CRLSet: `IssuerLists[hex(parent.SPKIFingerprint)]` / `BlockedSPKIs` are keyed by key id;
-  * OCSP / CRL fetching (`ShouldCheckOCSP`, `ShouldCheckCRL`) is off and not modelled.
+  * a key id stands for SubjectPublicKeyInfo BYTES (the harness key ids `100+2j` / `100+2j+1` are one RSA
+    key with / without NULL algorithm parameters, i.e. two different ids): OneCRL hashes the
+    certificate's own `RawSubjectPublicKeyInfo` (since the fix 8a7eec0; before it hashed the re-marshalled
+    key, see `OneCRL.checkOld` in `ZV.Props.C12`), CRLSet is given the parent's `SPKIFingerprint`;
+  * the revocation switches: `ShouldCheckOCSP && len(c.OCSPServer) > 0` calls `rp.CheckOCSP(ctx, c,
+    Parents[0] or nil)`, `ShouldCheckCRL && len(c.CRLDistributionPoints) > 0` calls `rp.CheckCRL(ctx, c,
+    nil)`; the three values a provider returns are inputs (`ProvAns`) and are copied to the result; a
+    nil provider is `defaultRevocation`, modelled only where no HTTP request can succeed (`offline`).
+    What `CheckOCSP` / `CheckCRL` of revocation.go do on the network is not modelled.
 -/
 namespace ZV.C12
 open ZV.C10 ZV.C11
 
 abbrev Chain := List Cert
+
+/-! ### `time.Time` -/
+
+structure Time where
+  sec : Int          -- seconds relative to the harness epoch
+  nsec : Nat         -- nanoseconds inside the second (`< 10^9` for every Go value)
+  deriving Repr, DecidableEq
+
+/-- `t.Before(u)` -/
+def Time.before (t u : Time) : Bool :=
+  decide (t.sec < u.sec) || (decide (t.sec = u.sec) && decide (t.nsec < u.nsec))
+/-- `t.After(u)` -/
+def Time.after (t u : Time) : Bool :=
+  decide (t.sec > u.sec) || (decide (t.sec = u.sec) && decide (t.nsec > u.nsec))
+/-- a certificate time (whole seconds) -/
+def Time.ofSec (s : Int) : Time := { sec := s, nsec := 0 }
+/-- January 1, year 1 00:00:00 UTC relative to the harness epoch 1600000000 (Unix -62135596800) -/
+def zeroSec : Int := -63735596800
+/-- `t.IsZero()` -/
+def Time.isZero (t : Time) : Bool := decide (t.sec = zeroSec) && decide (t.nsec = 0)
 
 /-- `later(a, b)`: `if a.After(b) { a } else { b }` -/
 def later (a b : Int) : Int := if a > b then a else b
@@ -34,7 +66,7 @@ structure Parts where
   deriving Repr, DecidableEq
 
 /-- `x509.FilterByDate` (including its `panic`) -/
-def filterByDate : List Chain → Int → Res Parts
+def filterByDate : List Chain → Time → Res Parts
   | [], _ => .ok { current := [], expired := [], never := [] }
   | ch :: rest, now =>
     match ch with
@@ -42,8 +74,8 @@ def filterByDate : List Chain → Int → Res Parts
     | leaf :: tl =>
       let lower := lowerBound leaf tl
       let upper := upperBound leaf tl
-      let valid := decide (lower < now) && decide (upper > now)
-      let wasValid := decide (lower < upper)
+      let valid := (Time.ofSec lower).before now && (Time.ofSec upper).after now
+      let wasValid := (Time.ofSec lower).before (Time.ofSec upper)
       if valid && !wasValid then .panic
       else
         match filterByDate rest now with
@@ -71,7 +103,8 @@ structure OneCRL where
   blocked : List (Nat × Nat)        -- Blocked: (subject name, key)
   deriving Repr, DecidableEq
 
-/-- `OneCRL.Check(cert) != nil` -/
+/-- `OneCRL.Check(cert) != nil`; a `Blocked` entry is (subject, SHA-256 of the SPKI bytes of key id),
+    compared with the SHA-256 of `cert.RawSubjectPublicKeyInfo` -/
 def OneCRL.check (o : OneCRL) (c : Cert) : Bool :=
   o.blocked.any (fun b => b.1 == c.subj && b.2 == c.key) ||
   o.issuerSerial.any (fun e => e.1 == c.iss && e.2 == c.serial)
@@ -108,11 +141,40 @@ inductive CType where
   | unknown | leaf | intermediate | root
   deriving Repr, DecidableEq
 
+/-- the three values `CheckOCSP` / `CheckCRL` return: `isRevoked`, `info` (nil or an opaque id), `err != nil` -/
+structure ProvAns where
+  revoked : Bool
+  info : Option Nat
+  err : Bool
+  deriving Repr, DecidableEq
+
+/-- the zero values the result fields keep when a check does not run -/
+def ProvAns.zero : ProvAns := { revoked := false, info := none, err := false }
+/-- what `defaultRevocation` answers when no HTTP request can succeed (context cancelled / no network):
+    every path of `CheckOCSP` / `CheckCRL` ends in `return false, nil, err` -/
+def ProvAns.offline : ProvAns := { revoked := false, info := none, err := true }
+
+/-- a `RevocationProvider`, given by its answers to the (at most one) call of each kind -/
+structure Provider where
+  ocsp : ProvAns
+  crl : ProvAns
+  deriving Repr, DecidableEq
+
+/-- `VerificationOptions` plus the environment of the call (clock, URL counts of the certificate) -/
 structure Opts where
-  time : Int
+  time : Time                         -- VerifyTime
   name : Name
   oneCRL : Option OneCRL
   crlSet : Option CRLSet
+  shouldOCSP : Bool := false
+  shouldCRL : Bool := false
+  provider : Option Provider := none  -- `none`: RevocationProvider == nil
+  clock : Time := Time.ofSec 0        -- what `time.Now()` returns inside `clean()`
+  nOCSP : Nat := 0                    -- len(c.OCSPServer)
+  nCDP : Nat := 0                     -- len(c.CRLDistributionPoints)
+
+/-- `opts.clean()`: the verification time in force -/
+def Opts.now (o : Opts) : Time := if o.time.isZero then o.clock else o.time
 
 structure Result where
   expired : Bool
@@ -125,10 +187,15 @@ structure Result where
   inRevocationSet : Bool
   ctype : CType
   parentSK : Option NodeKey        -- ParentSPKISubjectFingerprint
+  ocspCall : Option (Option Cert) := none   -- `some i`: CheckOCSP was called with issuer `i` (`none` = nil)
+  ocsp : ProvAns := ProvAns.zero            -- OCSPRevoked, OCSPRevocationInfo, OCSPCheckError
+  crlCall : Bool := false                   -- CheckCRL was called (with a nil list)
+  crl : ProvAns := ProvAns.zero             -- CRLRevoked, CRLRevocationInfo, CRLCheckError
   deriving Repr, DecidableEq
 
 /-- `c.TimeInValidityPeriod(t)` -/
-def timeInValidityPeriod (c : Cert) (t : Int) : Bool := decide (c.notBefore < t) && decide (c.notAfter > t)
+def timeInValidityPeriod (c : Cert) (t : Time) : Bool :=
+  (Time.ofSec c.notBefore).before t && (Time.ofSec c.notAfter).after t
 
 /-- `g.IsRoot(c)` -/
 def isRoot (g : Graph) (c : Cert) : Bool :=
@@ -151,22 +218,37 @@ def certType (g : Graph) (c : Cert) (parents : List Cert) : CType :=
   else if parents.length > 0 then .leaf
   else .unknown
 
+/-- `rp`: the supplied provider, or `defaultRevocation` -/
+def providerOf (opts : Opts) : Provider :=
+  match opts.provider with
+  | some p => p
+  | none => { ocsp := ProvAns.offline, crl := ProvAns.offline }
+
+/-- `opts.ShouldCheckOCSP && len(c.OCSPServer) > 0` -/
+def ocspDue (opts : Opts) : Bool := opts.shouldOCSP && decide (opts.nOCSP > 0)
+/-- `opts.ShouldCheckCRL && len(c.CRLDistributionPoints) > 0` -/
+def crlDue (opts : Opts) : Bool := opts.shouldCRL && decide (opts.nCDP > 0)
+
 /-- assembly of the result from the walked chains -/
 def assemble (g : Graph) (c : Cert) (opts : Opts) (graphChains : List Chain) : Res Result :=
-  let expired := !timeInValidityPeriod c opts.time
-  match filterByDate graphChains opts.time with
+  let expired := !timeInValidityPeriod c opts.now
+  match filterByDate graphChains opts.now with
   | .ok p =>
     let nameError := match opts.name with
       | .none => Option.none
       | n => some (!nameMatches c n)
     let allChains := p.current ++ p.expired ++ p.never
-    match filterByDate allChains (c.notAfter - 1) with
+    match filterByDate allChains (Time.ofSec (c.notAfter - 1)) with
     | .ok q =>
       let parents := if expired then parentsFromChains q.current else parentsFromChains p.current
       .ok { expired := expired, current := p.current, expiredChains := p.expired, never := p.never,
             validAtExpiration := q.current, parents := parents, nameError := nameError,
             inRevocationSet := revocationFlag opts c parents, ctype := certType g c parents,
-            parentSK := parents.head?.map (·.sk) }
+            parentSK := parents.head?.map (·.sk),
+            ocspCall := if ocspDue opts then some parents.head? else none,
+            ocsp := if ocspDue opts then (providerOf opts).ocsp else ProvAns.zero,
+            crlCall := crlDue opts,
+            crl := if crlDue opts then (providerOf opts).crl else ProvAns.zero }
     | _ => .panic
   | _ => .panic
 
